@@ -18,6 +18,68 @@ mod nftac;
 
 use nftac::ExampleContractClient as Client;
 
+/// The same entry points (names, arguments, results) as the example, but the macro-guarded ones are methods of a
+/// trait implementation - exported like any other entry point, yet not `pub` in the source, which is how most
+/// contracts of the repository carry `#[only_role]` (allow-list, block-list, SAC admin wrapper, royalties ...).
+/// Driven through the example's generated client (a client only names functions and arguments).
+mod lab {
+    use soroban_sdk::{contract, contractimpl, vec, Address, Env, String, Symbol, Vec};
+    use stellar_access::access_control::{set_admin, AccessControl};
+    use stellar_macros::{has_any_role, has_role, only_admin, only_any_role, only_role};
+
+    #[contract]
+    pub struct Lab;
+
+    pub trait Gated {
+        fn admin_restricted_function(e: &Env) -> Vec<String>;
+        fn mint(e: &Env, to: Address, token_id: u32, caller: Address);
+        fn multi_role_action(e: &Env, caller: Address) -> String;
+        fn multi_role_auth_action(e: &Env, caller: Address) -> String;
+        fn burn(e: &Env, from: Address, token_id: u32);
+    }
+
+    #[contractimpl]
+    impl Lab {
+        pub fn __constructor(e: &Env, _uri: String, _name: String, _symbol: String, admin: Address) {
+            set_admin(e, &admin);
+        }
+    }
+
+    #[contractimpl]
+    impl Gated for Lab {
+        #[only_admin]
+        fn admin_restricted_function(e: &Env) -> Vec<String> {
+            vec![&e, String::from_str(e, "ok")]
+        }
+
+        #[only_role(caller, "minter")]
+        fn mint(e: &Env, to: Address, token_id: u32, caller: Address) {
+            let _ = (to, token_id);
+        }
+
+        #[has_any_role(caller, ["minter", "burner"])]
+        fn multi_role_action(e: &Env, caller: Address) -> String {
+            caller.require_auth(); // as in the example: this macro does not ask for the authorization
+            String::from_str(e, "ok")
+        }
+
+        #[only_any_role(caller, ["minter", "burner"])]
+        fn multi_role_auth_action(e: &Env, caller: Address) -> String {
+            String::from_str(e, "ok")
+        }
+
+        // as in the example: the macro checks the role, the body asks for the authorization
+        #[has_role(from, "burner")]
+        fn burn(e: &Env, from: Address, token_id: u32) {
+            let _ = token_id;
+            from.require_auth();
+        }
+    }
+
+    #[contractimpl(contracttrait)]
+    impl AccessControl for Lab {}
+}
+
 const ROLES: [&str; 3] = ["minter", "burner", "r3"];
 const ACCTS_EXEC: [&str; 4] = ["a", "b", "c", "d"];
 const ACCTS_DRIVE: [&str; 5] = ["a", "b", "c", "d", "e"];
@@ -59,18 +121,18 @@ struct Sys {
     stock: BTreeMap<String, Vec<u32>>,
     /// designated recipient of the running admin hand-over (driver feedback only; there is no getter)
     pend: String,
+    /// "example" | "lab"
+    imp: String,
 }
 
 impl Sys {
     /// `stock`: number of tokens each account gets before the judged history starts
-    fn new(accts: &[&str], preset: &str, stock: &BTreeMap<String, u32>) -> Sys {
+    fn new(accts: &[&str], preset: &str, stock: &BTreeMap<String, u32>, imp: &str) -> Sys {
         let e = new_env(&LedgerCfg::default());
         let names = Names::new(&e, accts);
         let a = names.get("a");
-        let c = e.register(
-            nftac::ExampleContract,
-            (SStr::from_str(&e, "u"), SStr::from_str(&e, "n"), SStr::from_str(&e, "s"), a.clone()),
-        );
+        let ctor = (SStr::from_str(&e, "u"), SStr::from_str(&e, "n"), SStr::from_str(&e, "s"), a.clone());
+        let c = if imp == "lab" { e.register(lab::Lab, ctor) } else { e.register(nftac::ExampleContract, ctor) };
         let mut sys = Sys {
             e,
             names,
@@ -79,6 +141,7 @@ impl Sys {
             next_token: 1000,
             stock: BTreeMap::new(),
             pend: "none".into(),
+            imp: imp.to_string(),
         };
         sys.setup(preset, stock);
         sys
@@ -296,7 +359,7 @@ impl Sys {
 /// The reset op minus "op" comes back as `cfg` when a violation is replayed.
 fn reset_event(sys: &Sys, preset: &str, stock: i64) -> Value {
     json!({"op": {"op": "reset", "acct": "none", "role": "none", "arole": "none", "caller": "none", "auth": [],
-                  "preset": preset, "accts": sys.accts.len(), "stock": stock},
+                  "preset": preset, "accts": sys.accts.len(), "stock": stock, "imp": sys.imp},
            "now": seq(&sys.e), "res": "ok", "err": 0, "obs": sys.obs()})
 }
 
@@ -372,7 +435,7 @@ fn main() {
     match cli() {
         Mode::Exec { input, output } => {
             let mut t = Trace::create(&output);
-            for b in read_behaviours(&input) {
+            for (bi, b) in read_behaviours(&input).iter().enumerate() {
                 let preset = b.cfg.get("preset").and_then(|v| v.as_str()).unwrap_or("fresh").to_string();
                 // replayed driver runs name their universe and stock; TLC's behaviours use the defaults
                 let accts: &[&str] =
@@ -389,7 +452,10 @@ fn main() {
                         }
                     }
                 }
-                let mut sys = Sys::new(accts, &preset, &stock);
+                // TLC's behaviours alternate between the example and the trait-implemented entry points
+                let imp = b.cfg.get("imp").and_then(|v| v.as_str()).map(|x| x.to_string())
+                    .unwrap_or_else(|| if bi % 2 == 1 { "lab".into() } else { "example".into() });
+                let mut sys = Sys::new(accts, &preset, &stock, &imp);
                 t.reset(reset_event(&sys, &preset, k));
                 for op in &b.ops {
                     let ev = sys.step(op);
@@ -405,7 +471,7 @@ fn main() {
             for run in 0..runs {
                 let preset = ["chain", "fresh", "crowd"][run % 3];
                 let stock: BTreeMap<String, u32> = accts.iter().map(|x| (x.to_string(), DRIVE_STOCK)).collect();
-                let mut sys = Sys::new(accts, preset, &stock);
+                let mut sys = Sys::new(accts, preset, &stock, if (run / 3) % 2 == 1 { "lab" } else { "example" });
                 let reset = reset_event(&sys, preset, DRIVE_STOCK as i64);
                 let mut v = view(&reset["obs"]);
                 t.reset(reset);
